@@ -43,7 +43,7 @@ def make_inline(P):
             if b.name == "format_response_data" and "ResponseData" in (b.impl_trait or ""):
                 ok = (b.impl_self or "") not in NUMERIC and "format::Hex" not in (b.impl_self or "") and "format::Octal" not in (b.impl_self or "") and "format::Binary" not in (b.impl_self or "")
             elif not b.impl_trait and not b.in_trait:
-                ok = r.startswith(("scpi::parser::response::", "scpi::error::", "scpi::parser::format::", "scpi::parser::tokenizer::util::", "scpi::option::"))
+                ok = r.startswith(("scpi::parser::response::", "scpi::error::", "scpi::parser::format::", "scpi::parser::tokenizer::", "scpi::option::"))
             elif any(x in (b.impl_trait or "") for x in ("convert::From", "convert::Into", "default::Default")) and ("error::" in r):
                 ok = True
         cache[r] = ok
